@@ -50,6 +50,10 @@ type G struct {
 
 func (g *G) numLit() *ast.Expr {
 	r := g.R
+	if g.P.Faults > 0 && r.Intn(24) == 0 {
+		// more digits than a double holds: the literal is +Inf
+		return ast.Num("1" + strings.Repeat("0", 309+r.Intn(30)))
+	}
 	switch r.Intn(10) {
 	case 0:
 		return ast.Num("0")
@@ -65,7 +69,7 @@ func (g *G) numLit() *ast.Expr {
 }
 
 func (g *G) strLit() *ast.Expr {
-	return ast.Str(g.R.Pick("a", "b", "x", "", "hello", "A", "B", "Start", "1", "true", "2.5"))
+	return ast.Str(g.R.Pick("a", "b", "x", "", "hello", "A", "B", "Start", "1", "true", "2.5", "a\\\"", "\\\"q\\\" b", "x\\\\", "{z}", "é #t"))
 }
 
 // boundary returns calls whose arguments sit on the edges of the guards of the built-ins: spans of exactly MaxInt64,
@@ -258,6 +262,10 @@ func (g *G) text() string {
 			t += r.Pick("\u3000", "\u00a0 ", " \u2003")
 		}
 	}
+	if r.Intn(12) == 0 {
+		// a line that begins with a single slash is text, not a comment
+		t = r.Pick("/me ", "/", "/ ") + t
+	}
 	if g.P.Escapes && r.Intn(3) == 0 {
 		// (escaped brackets alone and together: the lexer passes them through, the markup pass resolves them)
 		t += r.Pick(" a#b", " {x}", " a\\b", " <<c", " x//y", " a<b", " a/b", " >}", " \\[z\\]", " x\\]y", " p\\[q", " \\] \\]", " e\\]")
@@ -438,7 +446,14 @@ func (g *G) body(depth, n int) []*ast.Stmt {
 			}
 			out = append(out, s)
 		case "stop":
-			out = append(out, &ast.Stmt{Kind: "cmd", Cmd: []ast.CmdEl{{Word: "stop"}}})
+			st := &ast.Stmt{Kind: "cmd", Cmd: []ast.CmdEl{{Word: "stop"}}}
+			switch r.Intn(6) {
+			case 0:
+				st.Cmd = append(st.Cmd, ast.CmdEl{Word: "now"})
+			case 1:
+				st.Cmd = append(st.Cmd, ast.CmdEl{E: g.expr(1, "")})
+			}
+			out = append(out, st)
 		}
 	}
 	return out
@@ -467,7 +482,7 @@ func RunCase(r *prng.R, p *Profile, id string) *sexp.S {
 	prog := &ast.Program{}
 	for i, t := range g.titles {
 		n := &ast.Node{Title: t}
-		if p.Untracked && i > 0 && r.Intn(3) == 0 {
+		if p.Untracked && r.Intn(3) == 0 && (i > 0 || r.Intn(2) == 0) {
 			n.Tracking = r.Pick("never", "always")
 		}
 		if p.Untracked && r.Intn(4) == 0 {
